@@ -1061,7 +1061,8 @@ class AdvancedHTMLParser(HTMLParser):
         rootNode.remove() # Detatch from temp document
 
         if isInvisibleRootTag(rootNode):
-            return rootNode.children
+            # Detach the top-level tags from the invisible root as well
+            return rootNode.removeChildren(list(rootNode.children))
 
         return [rootNode]
 
@@ -1091,7 +1092,12 @@ class AdvancedHTMLParser(HTMLParser):
 
         if isInvisibleRootTag(rootNode):
             # Several top-level blocks: they are the contents of the invisible root.
-            return rootNode.blocks
+            blocks = list(rootNode.blocks)
+
+            # Detach the top-level tags from the invisible root as well
+            rootNode.removeChildren(list(rootNode.children))
+
+            return blocks
 
         # A single top-level tag: that tag is the block, not its contents
         return [rootNode]
